@@ -507,7 +507,9 @@ def _create_params(parent, argslist_list):
     if first.type in ('name', 'fpdef'):
         return [Param([first], parent)]
     elif first == '*':
-        return [first]
+        # Either a lone `*` or the already processed `*` `,` of `def f(*,)`,
+        # where no `Param` exists that would show that it was processed.
+        return list(argslist_list)
     else:  # argslist is a `typedargslist` or a `varargslist`.
         if first.type == 'tfpdef':
             children = [first]
